@@ -173,7 +173,7 @@ Proof.
   intros [= <-].
   assert (Hg := unmarshal_medias_getters E ord _ [] ms ltac:(constructor) Ems).
   assert (Hg' : Forall getters_ok (if existsb (fun m => negb (m_back m)) ms then ms else map unset_back ms)).
-  { destruct (existsb _ ms); [exact Hg|]. apply Forall_map. eapply Forall_impl; [|exact Hg]. intros m Hm. exact Hm. }
+  { destruct (existsb _ ms); [exact Hg|]. apply Forall_map. eapply Forall_impl; [|exact Hg]. intros m0 Hm0. exact Hm0. }
   unfold marshal_text, marshal_session. cbn [s_mikey s_medias s_title s_fec s_multicast].
   apply np_rbind; [|intros; apply np_ok].
   apply np_rbind; [apply mikey_attr_np|]. intros km' _.
